@@ -7,6 +7,7 @@ import (
 
 	"github.com/weedbox/pokertable"
 
+	"verif/harness/choose"
 	"verif/harness/ev"
 	"verif/harness/run"
 	"verif/harness/sim"
@@ -56,6 +57,62 @@ func c14Body(c *run.Ctx) {
 		}
 		if n3b > 1 {
 			c.Failf("C14.two-3bet", "%d players hold the 3-bet flag", n3b)
+		}
+	}
+	// actions the hand refuses (out of turn, or a kind that is not allowed now) must leave
+	// every player's statistics as they were; an attempt the hand accepts after all is
+	// counted like any other accepted action
+	hooks.AtDecision = func(s *sim.Sim, d *sim.Decision) {
+		if d.Kind != "turn" || !choose.Chance(c.Ch, "refused.try", 20) {
+			return
+		}
+		statsOf := func() map[string]pokertable.TablePlayerGameStatistics {
+			m := map[string]pokertable.TablePlayerGameStatistics{}
+			for _, p := range s.TE.GetTable().State.PlayerStates {
+				m[p.PlayerID] = p.GameStatistics
+			}
+			return m
+		}
+		cur := d.GS.GetPlayer(d.Cur)
+		n := c.Ch.Int("refused.n", 1, 2)
+		for i := 0; i < n; i++ {
+			gi := d.Cur
+			kinds := []string{}
+			if choose.Chance(c.Ch, "refused.outofturn", 60) && len(d.M) > 1 {
+				gi = (d.Cur + 1 + c.Ch.Int("refused.who", 0, len(d.M)-2)) % len(d.M)
+				kinds = []string{"fold", "check", "call", "allin", "raise", "bet"}
+			} else if cur != nil {
+				for _, k := range []string{"fold", "check", "call", "raise", "bet"} {
+					if !inList(cur.AllowedActions, k) {
+						kinds = append(kinds, k)
+					}
+				}
+			}
+			if len(kinds) == 0 {
+				continue
+			}
+			kind := kinds[c.Ch.Int("refused.kind", 0, len(kinds)-1)]
+			before := statsOf()
+			a := s.Submit(d.M[gi], gi, kind, d.GS.Status.CurrentWager+d.GS.Status.MiniBet, d)
+			c.Ch.Note("  attempt %s %s by %s (turn of %s) -> %v", d.Round, kind, d.M[gi], d.M[d.Cur], a.Err)
+			if a.Err == nil {
+				// the hand took it: it counts (C10 judges whether it should have)
+				s.Cur.Actions = append(s.Cur.Actions, a)
+				s.Label("attempt_accepted")
+				s.SkipAct = true
+				return
+			}
+			s.Label("refused_attempt")
+			if kind == "fold" {
+				s.Label("refused_fold")
+			}
+			nontrivial = true
+			after := statsOf()
+			for id, b := range before {
+				if !reflect.DeepEqual(b, after[id]) {
+					c.Failf("C14.refused-action-changed-statistics", "hand %d %s: %s by %s was refused (%v; turn of %s, allowed there %v) but the statistics of %s changed: %+v -> %+v", s.Cur.N, d.Round, kind, d.M[gi], a.Err, d.M[d.Cur], cur.AllowedActions, id, b, after[id])
+				}
+			}
 		}
 	}
 	hooks.Opened = func(s *sim.Sim, h *sim.Hand) {
